@@ -237,7 +237,7 @@ def _check(c):
     weights = [min(len(us), 60) for us in cl]
     # boundary corpus first
     for a, b in [('km', 'inch'), ('inch', 'cm'), ('lb', 'kg'), ('mile', 'm'), ('celsius', 'fahrenheit'), ('fahrenheit', 'kelvin'), ('kelvin', 'celsius'),
-                 ('kilocelsius', 'K'), ('rankine', 'celsius'), ('degree', 'radian'), ('radian', 'degree'), ('degree', 'arcsec'), ('percent', 'ppm'),
+                 ('kilocelsius', 'K'), ('rankine', 'celsius'), ('celsius', 'kelvin'), ('fahrenheit', 'celsius'), ('kelvin', 'fahrenheit'), ('rankine', 'fahrenheit'), ('fahrenheit', 'rankine'), ('celsius', 'celsius'), ('degree', 'radian'), ('radian', 'degree'), ('degree', 'arcsec'), ('percent', 'ppm'),
                  ('USD', 'EUR'), ('JPY', 'GBP'), ('byte', 'bit'), ('MiB', 'kB'), ('year', 'second'), ('gallon', 'liter'), ('acre', 'hectare'),
                  ('mph', 'kph'), ('knot', 'mph'), ('psi', 'Pa'), ('hp', 'W'), ('eV', 'J'), ('cal', 'J'), ('light_year', 'parsec'), ('sphere', 'squaredegree')]:
         if a in units and b in units and units[a].cls == units[b].cls:
@@ -253,6 +253,40 @@ def _check(c):
     ks = [Fraction(r.randint(-9, 9), r.randint(1, 9)) for _ in cases]
     q4 = l2(c, ['((%s * %s) %s to %s) == %s * (%s %s to %s)' % (xlit(k), xlit(x), A.name, B.name, xlit(k), xlit(x), A.name, B.name)
                 for (A, B, x), k in zip(cases, ks)])
+    # differences and comparisons use the scale only (no offsets): x A - y B, ==, !=
+    ys = []
+    for (A, B, x) in cases:
+        kk = r.random()
+        if kk < 0.4:
+            ys.append(x * A.coef * A.adj / (B.coef * B.adj))          # equal by scale
+        elif kk < 0.6 and (A.affine or B.affine) and A.pat == B.pat == 's':
+            ys.append((x * A.coef * A.adj + A.off - B.off) / (B.coef * B.adj))   # the same temperature point (not equal by scale)
+        else:
+            ys.append(rand_x(r))
+    q6 = l2(c, ['@noapprox ((%s %s) - (%s %s)) to fraction' % (xlit(x), A.name, xlit(y), B.name) for (A, B, x), y in zip(cases, ys)])
+    q7 = l2(c, ['(%s %s) == (%s %s)' % (xlit(x), A.name, xlit(y), B.name) for (A, B, x), y in zip(cases, ys)])
+    q8 = l2(c, ['(%s %s) != (%s %s)' % (xlit(x), A.name, xlit(y), B.name) for (A, B, x), y in zip(cases, ys)])
+    nsub = 0
+    for (A, B, x), y, o6, o7, o8 in zip(cases, ys, q6, q7, q8):
+        if A.pat != B.pat or not (A.exact and B.exact):
+            continue
+        c.note_case('sub:%s-%s:%s:%s' % (A.name, B.name, x, y), True, 'difference-affine' if (A.affine or B.affine) else 'difference')
+        want = x - y * (B.coef * B.adj) / (A.coef * A.adj)
+        rep = {'kind': 'impl-vs-spec', 'A': A.name, 'B': B.name, 'x': str(x), 'y': str(y)}
+        bad = None
+        pn = parse_num(o6[1]) if o6[0] == 'o' else None
+        # an exactly-zero rhs is a no-op; a zero lhs keeps the lhs unit: the number is the same
+        # a dimensionless alias (five, kilo, ...) is folded into the number when printed
+        shown = want * A.coef * A.adj if (pn is not None and pn[1] == '' and not A.rdims) else want
+        if pn is None or pn[0] != shown:
+            bad = dict(rep, input='@noapprox ((%s %s) - (%s %s)) to fraction' % (xlit(x), A.name, xlit(y), B.name), impl=o6, want=str(shown), law='difference')
+        elif o7 != ('o', 'true' if want == 0 else 'false'):
+            bad = dict(rep, input='(%s %s) == (%s %s)' % (xlit(x), A.name, xlit(y), B.name), impl=o7, want=str(want == 0).lower(), law='equality')
+        elif o8 != ('o', 'false' if want == 0 else 'true'):
+            bad = dict(rep, input='(%s %s) != (%s %s)' % (xlit(x), A.name, xlit(y), B.name), impl=o8, want=str(want != 0).lower(), law='inequality')
+        if bad and nsub < 15:
+            nsub += 1
+            c.violation('conversion-' + bad['law'], bad)
     nbad = 0
     leftover = []
     for (A, B, x), o1, o2, o3, o4, k in zip(cases, q1, q2, q3, q4, ks):
@@ -312,6 +346,8 @@ def _check(c):
             c.violation('conversion-transitive', {'kind': 'impl-vs-spec', 'input': '(%s %s to %s to %s) == (%s %s to %s)' % (xlit(x), A.name, B.name, C.name, xlit(x), A.name, C.name), 'impl': o})
 
     simplify_checks(c, t, units, classes)
+    currency_checks(c, t)
+    history_checks(c, t, units, classes)
 
     # ---- L1: the raw result of `x A to B` against the model's convert_to on the model's values
     samp = r.sample(cases, min(len(cases), 800 if c.tier == 'quick' else 5000))
@@ -467,6 +503,75 @@ def simplify_checks(c, t, units, classes):
             ndiff += 1
             c.violation('simplify-model-differs', {'kind': 'impl-vs-model', 'layer': 'L1 Value::simplify (hook eval_expr_simplified)', 'input': exprs[i],
                                                    'impl': repr(iv)[:500], 'model': repr(m)[:500]}, no_input=True)
+
+
+def currency_checks(c, t):
+    """every currency unit is exactly 1/rate of the base currency (the rate as the handler's f64 prints),
+    independently of the dumped records: spec = the fake rates themselves"""
+    r = c.rng
+    cur = t['currencies']
+    rates = dict(zip(cur, [Fraction(try_parse(o).decode()) for o in c.impl('units', [sx([Sym('fake-rate'), x]) for x in cur])]))
+    vals = dict(t['name_vals'])
+    for x in cur:
+        c.note_case('currency:' + x, True, 'currency-scale')
+        v = vals.get(x)
+        good = v and v[0] == 'ok' and v[2] is not None and v[2][1] and v[2][0]['scale'] == ('s', 1 / rates[x]) and v[2][0]['base'] == [('BASE_CURRENCY', Fraction(1))]
+        if not good:
+            c.violation('currency-scale', {'kind': 'impl-vs-spec', 'ident': x, 'input': '1 %s' % x, 'rate': str(rates[x]), 'want_scale': str(1 / rates[x]),
+                                           'impl': repr(v)[:400]})
+    pairs = [(r.choice(cur), r.choice(cur)) for _ in range(150 if c.tier == 'quick' else 2000)] + [('USD', 'GBP'), ('EUR', 'JPY')]
+    outs = l2(c, ['@noapprox (7 %s to %s) to fraction' % (a, b) for a, b in pairs])
+    for (a, b), o in zip(pairs, outs):
+        c.note_case('currency:%s>%s' % (a, b), a != b, 'currency-pair')
+        pn = parse_num(o[1]) if o[0] == 'o' else None
+        want = 7 * rates[b] / rates[a]
+        if pn is None or pn[0] != want or 'approx' in o[1]:
+            c.violation('currency-conversion', {'kind': 'impl-vs-spec', 'input': '@noapprox (7 %s to %s) to fraction' % (a, b), 'impl': o, 'want': str(want)})
+
+
+def history_checks(c, t, units, classes):
+    """several statements on ONE context: names that differ only in ASCII case (Mm / mm, MB / Mb,
+    mA / MA, Pa / pA ...) used one after the other, and ordinary conversions in sequence;
+    each answer must be the one a fresh context gives"""
+    r = c.rng
+    # prefixed names that collide in case with another usable name
+    cand = {}
+    for p, u in t['ok_pairs']:
+        n = p + u
+        if NAME_OK.match(n):
+            cand.setdefault(n.lower(), set()).add(n)
+    for n in units:
+        cand.setdefault(n.lower(), set()).add(n)
+    groups = [sorted(v) for v in cand.values() if len(v) > 1]
+    fixed = [['Mm', 'mm'], ['MB', 'Mb', 'mb', 'mB'], ['mA', 'MA'], ['Pa', 'pA', 'PA'], ['ms', 'Ms', 'mS', 'MS'], ['mg', 'Mg'], ['mW', 'MW'], ['mm', 'Mm', 'MM']]
+    r.shuffle(groups)
+    groups = fixed + groups[: (60 if c.tier == 'quick' else 600)]
+    partner = {'meter': 'm', 'second': 's', 'kilogram': 'kg', 'ampere': 'A', 'bit': 'bit'}
+    hist = []
+    for g in groups:
+        steps = []
+        order = g * 2
+        r.shuffle(order)
+        for n in order:
+            x = rand_x(r) or Fraction(1)
+            k = r.random()
+            if k < 0.5:
+                steps.append(('e', '@noapprox (%s %s) to fraction' % (xlit(x), n)))
+            else:
+                other = r.choice(g)
+                steps.append(('e', '@noapprox (%s %s to %s) to fraction' % (xlit(x), n, other)))
+            if r.random() < 0.3:
+                steps.append(('e', '(1 %s) == (1 %s)' % (n, r.choice(g))))
+        hist.append(steps)
+    pool = [u for us in classes.values() if len(us) >= 2 for u in us]
+    for _ in range(60 if c.tier == 'quick' else 600):
+        steps = []
+        for _ in range(r.randint(3, 7)):
+            A = r.choice(pool)
+            B = r.choice(classes[A.cls])
+            steps.append(('e', '@noapprox (%s %s to %s) to fraction' % (xlit(rand_x(r)), A.name, B.name)))
+        hist.append(steps)
+    U.history_check(c, hist, 'statement-history')
 
 
 def plural_of(t, name):
